@@ -13,8 +13,8 @@ use vpmodel::spec::{ChainSpec, Src};
 pub const DEF: PropDef = PropDef {
     id: "C15",
     level: "exploration",
-    rule: "chains on all 8 coins with arbitrary (non-monotonic) u32 timestamps >= 1, every script type, values from classes that produce ties for both maxima, coinbase-shaped transactions in any position, base heights around the halving boundaries (209990, 419995, 629998) and up to 10^7, optional --start/--end; the simplestats report is parsed and every figure compared with an independent recomputation: integers exactly (blocks, txs, inputs, outputs, fee units, volume units, biggest value/size with height and txid - first on ties -, per-type counts and first occurrences), means and shares within half a unit of the last printed decimal of the exact rational value. Non-trivial = >=3 blocks, >=2 script types and (a decreasing timestamp pair or timestamp gaps summing beyond 2^32); distinct by chain hash. The thorough tier repeats every case on the release build (wrap-around instead of overflow panic).",
-    assumptions: &["timestamps are >= 1 (the tool uses 0 as 'no previous block')", "value sums stay below 2^64 (generator bound), so the tool's u64 accumulators cannot overflow", "means with an empty sample (single block: time between blocks) are not pinned down by the statement"],
+    rule: "chains on all 8 coins with arbitrary (non-monotonic) u32 timestamps >= 1, every script type, values from classes that produce ties for both maxima, coinbase-shaped transactions in any position, base heights up to 10^7 and, for a quarter of the chains, across a halving boundary 210000*k for k = 1..70 (subsidy one unit in era 32, zero from era 33, shift undefined from era 64), a fifth of the chains with outputs of 2^63 units or more - one, or several so that the total volume, the fee total or one transaction's value exceed 2^64 -, optional --start/--end; the simplestats report is parsed and every figure compared with an independent recomputation: integers exactly (blocks, txs, inputs, outputs, fee units, volume units, biggest value/size with height and txid - first on ties -, per-type counts and first occurrences), means and shares within half a unit of the last printed decimal of the exact rational value. Non-trivial = >=3 blocks, >=2 script types and (a decreasing timestamp pair or timestamp gaps summing beyond 2^32); distinct by chain hash. The thorough tier repeats every case on the release build (wrap-around instead of overflow panic).",
+    assumptions: &["timestamps are >= 1 (the tool uses 0 as 'no previous block')", "means with an empty sample (single block: time between blocks) are not pinned down by the statement"],
     run,
     replay,
 };
@@ -37,12 +37,39 @@ pub fn strategy(tier: Tier) -> BS<Case> {
     // index; index 0xffffffff with a non-zero txid) that must NOT count as coinbase
     cfg.tx.src = prop_oneof![12 => gen::default_src(), 2 => Just(Src::Null), 1 => prop_oneof![Just(0u32), Just(0xffff_fffeu32), any::<u32>()].prop_map(Src::ZeroTxid), 1 => any::<u8>().prop_map(|s| Src::Unknown(s, 0xffff_ffff))].boxed();
     cfg.tx.max_common = 4;
-    (gen::chain(&cfg), proptest::option::weighted(0.3, any::<u16>()), proptest::option::weighted(0.3, any::<u16>()), proptest::option::weighted(0.12, (any::<u16>(), 0u64..1_000_000_000_000)))
+    (gen::chain(&cfg), proptest::option::weighted(0.3, any::<u16>()), proptest::option::weighted(0.3, any::<u16>()), proptest::option::weighted(0.2, (any::<[u16; 3]>(), 0u64..1_000_000_000_000, 0u8..6)))
         .prop_map(|(mut chain, start_sel, end_sel, huge)| {
-            // at most one output of 2^63 or more per chain: sums of all other values stay far below 2^63
-            if let Some((sel, extra)) = huge {
+            // outputs of 2^63 units or more: one per chain (mode 0-2), or several, so that the total volume, the
+            // fee total (coinbase first outputs) or the value of one transaction exceed 2^64 (modes 3-5; a real
+            // Dogecoin chain moves more than 2^64 base units in total)
+            if let Some((sel, extra, mode)) = huge {
                 let n = chain.blocks.len();
-                chain.blocks[vpmodel::spec::mono(sel, n)].coinbase.outputs[0].value = (1u64 << 63) + extra;
+                let big = (1u64 << 63) + extra;
+                let pick = |k: usize| vpmodel::spec::mono(sel[k], n);
+                match mode {
+                    0..=2 => chain.blocks[pick(0)].coinbase.outputs[0].value = big,
+                    3 => {
+                        // coinbase first outputs of three blocks: volume and fee totals beyond 2^64
+                        for k in 0..3 {
+                            chain.blocks[pick(k)].coinbase.outputs[0].value = big - k as u64;
+                        }
+                    }
+                    4 => {
+                        // later outputs (not counted as fees) in several transactions: volume beyond 2^64
+                        for k in 0..3 {
+                            let b = &mut chain.blocks[pick(k)];
+                            let proto = b.coinbase.outputs[0].clone();
+                            b.coinbase.outputs.push(vpmodel::spec::OutSpec { value: big + k as u64, ..proto });
+                        }
+                    }
+                    _ => {
+                        // two such outputs in ONE transaction: its own value exceeds 2^64
+                        let b = &mut chain.blocks[pick(0)];
+                        let proto = b.coinbase.outputs[0].clone();
+                        b.coinbase.outputs.push(vpmodel::spec::OutSpec { value: big, ..proto.clone() });
+                        b.coinbase.outputs.push(vpmodel::spec::OutSpec { value: u64::MAX, ..proto });
+                    }
+                }
             }
             Case { chain, start_sel, end_sel }
         })
@@ -124,6 +151,22 @@ fn run(eng: &Engine, a: &Args) {
         scripts[2][0] = 0x51;
         let coin = vpmodel::chain::ALL_COINS[k % 8];
         fixed.push(Case { chain: vpmodel::spec::chain_from_scripts(coin, &scripts, &[7_000, 9_000], 1, 2, 0, 1_500_000_000), start_sel: None, end_sel: None });
+    }
+    // regression inputs of the repaired 64-bit sums (known_findings.json, fixed: C15): total volume and fee total
+    // beyond 2^64 (three coinbases of 2^63 units), and one transaction worth more than 2^64
+    for mode in 0..2 {
+        let scripts: Vec<Vec<u8>> = (0..6).map(|i| vec![0x51 + i as u8]).collect();
+        let mut ch = vpmodel::spec::chain_from_scripts(vpmodel::chain::Coin::Dogecoin, &scripts, &[7, 1000], 1, 2, 0, 1_600_000_000);
+        if mode == 0 {
+            for b in ch.blocks.iter_mut() {
+                b.coinbase.outputs[0].value = 1u64 << 63;
+            }
+        } else {
+            let proto = ch.blocks[1].coinbase.outputs[0].clone();
+            ch.blocks[1].coinbase.outputs.push(vpmodel::spec::OutSpec { value: u64::MAX, ..proto.clone() });
+            ch.blocks[1].coinbase.outputs.push(vpmodel::spec::OutSpec { value: u64::MAX - 5, ..proto });
+        }
+        fixed.push(Case { chain: ch, start_sel: None, end_sel: None });
     }
     // all transaction values 0 or 1: the biggest-value transaction is worth exactly one unit (second sweep survivor:
     // a start value of 1 instead of 0 for the running maximum)
